@@ -82,7 +82,7 @@ class World:
     def edit(self):
         rng = self.rng
         files, dirs = self.files(), self.dirs()
-        op = rng.choice(['add', 'add', 'add', 'modify', 'touch', 'rename', 'delete', 'dup', 'mkdir', 'symlink', 'revive', 'chmod', 'nsmod', 'nsmod', 'swap'])
+        op = rng.choice(['add', 'add', 'add', 'modify', 'touch', 'rename', 'delete', 'dup', 'mkdir', 'symlink', 'revive', 'chmod', 'nsmod', 'nsmod', 'swap', 'overwrite'])
         try:
             if op == 'add' or not files:
                 d = rng.choice(dirs)
@@ -139,6 +139,14 @@ class World:
                 if not os.path.lexists(q):
                     shutil.copyfile(p, q)
                     self.fresh_mtime(q)
+            elif op == 'overwrite':
+                # a known path gets the bytes of another file (usually of another size): content the group may already store
+                p, q = rng.choice(files), rng.choice(files)
+                if p != q:
+                    data = open(q, 'rb').read()
+                    with open(p, 'wb') as f:
+                        f.write(data)
+                    self.fresh_mtime(p)
             elif op == 'revive':
                 # content that existed before (possibly absent now) comes back at a new path
                 cid = rng.randint(1, max(1, self.next_cid))
